@@ -15,6 +15,8 @@ use zksync_protobuf::kB;
 use crate::{config, gossip, io, noise, pool::PoolWatch, preface, rpc, MeteredStreamStats};
 
 mod handshake;
+#[cfg(feature = "verif_hooks")]
+pub mod verif;
 #[cfg(test)]
 mod tests;
 
